@@ -26,9 +26,9 @@ func TestMain(m *testing.M) {
 	switch os.Getenv("MC_PROP") {
 	case "C16":
 		harness.Run(&harness.Prop{
-			ID: "C16",
-			Rule: "the shipped start() of rtcmlogger (in-package harness) under the controlled scheduler with stdin, stdout and the daily record writer owned by the harness (every Read and Write a scheduling point); inputs {empty, 1 byte, 3 bytes with 00 and D3, 5 bytes, 8095, 8096, 8097 and 16193 bytes}; stdin chunkings {everything the buffer takes, 1 byte, 2 bytes} for the small inputs and {buffer-full, 8095, 4000} for the large ones (all chunkings in the unbounded pass); event logging off/on; two scenarios in which the record writer fails on every call (the pass-through must still complete); every interleaving of the copying loop and the recorder goroutine; and, under the default schedule, 96 start-up environments with the record in REAL files of a scratch directory: host time zone {UTC, UTC+13, UTC-11, UTC+11:30} (local date equal to, ahead of, behind the UTC date) x record directory {absent, today's record already holds data, empty records of yesterday/today/tomorrow, nested directory to be created} x input {0, 5, 8097 bytes} x event logging off/on, oracle: the file named for the local date in the configured directory holds (old content +) stdin when start() returns. Oracle at the instant start() returns (the process exits next): stdout == stdin and record == stdin; the recorder has terminated at quiescence; no panic. Non-trivial = distinct schedule trace",
-			Assumptions: []string{"dailylogger.New is redirected to an in-memory sink (schedule scenarios) or to a file-backed stand-in that keeps its contract - <dir>/<leader><local date><trailer>, created at construction, opened for appending, directory created on demand (record-file scenarios); rotation at midnight belongs to the go-tools dependency", "stdin errors other than EOF are not injected"},
+			ID:             "C16",
+			Rule:           "the shipped start() of rtcmlogger (in-package harness) under the controlled scheduler with stdin, stdout and the daily record writer owned by the harness (every Read and Write a scheduling point); inputs {empty, 1 byte, 3 bytes with 00 and D3, 5 bytes, 8095, 8096, 8097 and 16193 bytes}; stdin chunkings {everything the buffer takes, 1 byte, 2 bytes} for the small inputs and {buffer-full, 8095, 4000} for the large ones (all chunkings in the unbounded pass); event logging off/on; two scenarios in which the record writer fails on every call (the pass-through must still complete); every interleaving of the copying loop and the recorder goroutine; and, under the default schedule, 96 start-up environments with the record in REAL files of a scratch directory: host time zone {UTC, UTC+13, UTC-11, UTC+11:30} (local date equal to, ahead of, behind the UTC date) x record directory {absent, today's record already holds data, empty records of yesterday/today/tomorrow, nested directory to be created} x input {0, 5, 8097 bytes} x event logging off/on, oracle: the file named for the local date in the configured directory holds (old content +) stdin when start() returns. Oracle at the instant start() returns (the process exits next): stdout == stdin and record == stdin; the recorder has terminated at quiescence; no panic. Non-trivial = distinct schedule trace",
+			Assumptions:    []string{"dailylogger.New is redirected to an in-memory sink (schedule scenarios) or to a file-backed stand-in that keeps its contract - <dir>/<leader><local date><trailer>, created at construction, opened for appending, directory created on demand (record-file scenarios); rotation at midnight belongs to the go-tools dependency", "stdin errors other than EOF are not injected"},
 			Scenarios:      scenarios,
 			QuickBudget:    45 * time.Second,
 			ThoroughBudget: 6 * time.Minute,
@@ -39,9 +39,9 @@ func TestMain(m *testing.M) {
 }
 
 type obsT struct {
-	out, rec         *hsink.Sink
-	sinks            *hsink.Sinks
-	returned         bool
+	out, rec           *hsink.Sink
+	sinks              *hsink.Sinks
+	returned           bool
 	outAtRet, recAtRet []byte
 }
 
